@@ -149,6 +149,9 @@ def cases():
             for sp in ("initial", "handshake"):
                 for a in ("c", "s"):
                     out.append((name, a, sp))
+        elif name == "sd-local-bidi-plus1":
+            out.append((name, "s", "app"))      # only a client opens bidirectional streams in the workload
+            out.append((name, "s", "app"))
         else:
             out.append((name, "c", "app"))
             out.append((name, "s", "app"))
@@ -179,7 +182,7 @@ def fam_attack(rng, i):
     data = 1_000_000
     p = {
         "seed": rng.randrange(1, 2**40), "attack": name, "attacker": attacker, "attack_space": space,
-        "attack_at": rng.choice([0, 1, 3, 8]) if space == "app" else rng.choice([0, 1, 2]),
+        "attack_at": rng.choice([0, 1, 3, 5]) if space == "app" else rng.choice([0, 0, 1]),
         "bidi": bidi, "uni": uni, "suni": suni, "size": rng.choice([3000, 20000]), "chunk": 700,
         "delay_ms": 10, "deadline_ms": 60000, "read_delay_ms": rng.choice([0, 3]),
     }
@@ -203,14 +206,14 @@ def fam_attack(rng, i):
             p["suni"] = 1
         else:
             p["uni"] = 1
-        p["attack_at"] = rng.choice([3, 8])
+        p["attack_at"] = rng.choice([3, 5])
     if name in ("ss-max-stream-data-recv-only-open", "ss-stop-sending-recv-only-open"):
         if attacker == "c":
             p["uni"] = 1
         else:
             p["suni"] = 1
     if name == "sd-local-bidi-plus1":
-        p["attack_at"] = rng.choice([3, 8])
+        p["attack_at"] = rng.choice([3, 5])
     if name == "sd-existing-far" and attacker == "s":
         p["suni"] = 1
     if name.startswith("sl-") or name == "ok-sl-edge":
@@ -232,17 +235,17 @@ def fam_attack(rng, i):
 # oracle (a) + (b): adversarial scenarios
 
 CLOSE_RE = re.compile(r"error: (\w+)")
-CODE_RE = re.compile(r"code: (?:Code\()?(?:0x)?([0-9a-fA-F]+)")
 
 
 def parse_close(text):
-    """connection_closed event text -> (kind, code or None, initiator or None)"""
+    """connection_closed event text -> (kind, code or None, initiator or None)
+    e.g. `error: Transport { code: transport::error::Code(VarInt(3), "FLOW_CONTROL_ERROR"), .., initiator: Local, ..`"""
     m = CLOSE_RE.search(text)
     kind = m.group(1) if m else "?"
     code = None
-    m = re.search(r"code: (\d+)", text) or re.search(r"code: (?:\w+\()?0x([0-9a-fA-F]+)", text)
+    m = re.search(r"Code\(VarInt\((\d+)\)", text)
     if m:
-        code = int(m.group(1), 16) if "0x" in m.group(0) else int(m.group(1))
+        code = int(m.group(1))
     m = re.search(r"initiator: (\w+)", text)
     return kind, code, (m.group(1) if m else None)
 
@@ -302,6 +305,9 @@ def o_c04_attack(tr):
     # the CONNECTION_CLOSE frame on the wire carries the same code
     frames = [f for r in tr.recs if r.kind == "txp" and r.ep == victim and r.idx > rx.idx for f in r.frames if f["type"] == "CONNECTION_CLOSE"]
     if not frames:
+        if space == "initial":
+            return bad      # §17.2.2: an Initial packet with other frames may also just be discarded; a server that has no
+                            # validated path yet need not answer (§10.2.3)
         bad.append((f"e2e:c04:close-frame-missing:{name}", f"victim {victim} reported transport error {code:#x} but sent no CONNECTION_CLOSE frame"))
     elif any(f["app"] or f["code"] != code for f in frames):
         f = next(f for f in frames if f["app"] or f["code"] != code)
@@ -353,6 +359,7 @@ def o_c04_credit(tr):
     read = {"c": {}, "s": {}}          # ep -> sid -> bytes the application consumed
     high = {"c": {}, "s": {}}          # ep -> sid -> highest stream offset processed
     reset_rx = {"c": {}, "s": {}}      # ep -> sid -> final size of a processed RESET_STREAM
+    final_rx = {"c": {}, "s": {}}      # ep -> sid -> final size seen in a processed STREAM(FIN) frame
     done_rx = {"c": set(), "s": set()}     # receive half observed final by the application
     done_tx = {"c": set(), "s": set()}     # send half finished / reset by the application
     a = tr.attack
@@ -376,6 +383,8 @@ def o_c04_credit(tr):
                 if f["type"] == "STREAM":
                     h = high[r.ep]
                     h[f["id"]] = max(h.get(f["id"], 0), f["offset"] + len(f["data"]))
+                    if f["fin"]:
+                        final_rx[r.ep].setdefault(f["id"], f["offset"] + len(f["data"]))
                 elif f["type"] == "RESET_STREAM":
                     reset_rx[r.ep].setdefault(f["id"], f["final_size"])
         elif r.kind == "txp" and r.space == "app":
@@ -415,7 +424,10 @@ def o_c04_credit(tr):
                     if n is None:
                         continue
                     closed = 0
-                    for sid in done_rx[ep]:
+                    # the receive half is final once the application saw EOF / an error / asked for STOP_SENDING, or
+                    # consumed everything up to the final size; the send half once the application finished / reset it
+                    rx_final = set(done_rx[ep]) | {sid for sid, fs in final_rx[ep].items() if read[ep].get(sid, 0) >= fs}
+                    for sid in rx_final:
                         if e2e.stream_initiator(sid) != ep and e2e.stream_is_bidi(sid) == f["bidi"]:
                             if not f["bidi"] or sid in done_tx[ep]:
                                 closed += 1
@@ -426,3 +438,17 @@ def o_c04_credit(tr):
 
 def o_c04(tr):
     return o_c04_attack(tr) + o_c04_credit(tr)
+
+
+def credit_frames(tr):
+    """number of MAX_DATA / MAX_STREAM_DATA / MAX_STREAMS frames the endpoints sent (what the credit oracle checked)"""
+    n = 0
+    for r in tr.recs:
+        if r.kind == "txp" and r.space == "app":
+            n += sum(1 for f in r.frames if f["type"] in ("MAX_DATA", "MAX_STREAM_DATA", "MAX_STREAMS"))
+    return n
+
+
+def model_conformance(ctx, traces):
+    """placeholder until the Lean trace acceptor is wired in"""
+    return
